@@ -207,6 +207,8 @@ def run_c11(pid):
         sig = "%s rule=%s class=%s" % (pid, rule, re.sub(r"-\d+$", "", cls))
         v.violation(sig, "rule %s fails for the byte encoding of item %d (%s)%s" % (rule, iid, cls, m.group(6)[:300]), {"class": cls})
     ca = comment_algebra(wd, t)
+    bo = blocklist_ops(wd, t)
+    log("[%s] growth: BlockListOps %d states, %d histories replayed on BlockList, %d mismatches (non-gating)" % (pid, bo["states"], bo["histories"], bo["mismatches"]))
     log("[%s] growth: CommentAlgebra %d states, %d histories replayed on VorbisComment, %d mismatches (non-gating)" % (pid, ca["states"], ca["histories"], ca["mismatches"]))
     rc = v.finish()
     classes = sorted({re.sub(r"-\d+$", "", it["class"]) for it in items})
@@ -221,7 +223,7 @@ def run_c11(pid):
                 "(TLC) requires the written bytes to equal MetaFormat.MetaSerialize, bytes() to equal the body size, equal read-back, and an error (not "
                 "a panic) for invalid lists; the MetaSerialize encodings are also fed to the reader, re-written and re-read (converse direction)"
                 % (5 if t == "quick" else 6),
-        "classes": classes, "outcomes": outcomes, "valid_lists_refused_notes": notes, "growth_comment_algebra": ca,
+        "classes": classes, "outcomes": outcomes, "valid_lists_refused_notes": notes, "growth_comment_algebra": ca, "growth_blocklist_ops": bo,
         "known_findings_hit": {k: n for k, (kk, n) in v.known_hits.items()}},
         time.time() - t0, len(v.violations),
         ["TLC/SANY, CommunityModules", "MetaFormat is written from RFC 9639 as I know it", "free-text fields are covered by length / encoding classes only"])
@@ -568,4 +570,30 @@ def comment_algebra(wd, t):
     tr = tlc_trace(tm, tc, tp, wd)
     for ln in tr["rejects"][:5]:
         log("GROWTH-SPEC-MISMATCH module=CommentAlgebra " + ln[:300])
+    return {"states": r["distinct"], "histories": len(hs), "mismatches": len(tr["rejects"])}
+
+
+def blocklist_ops(wd, t):
+    """Growth beyond the listed properties (non-gating): BlockList insert / remove / extract / sort_by / get / get_all / get_pair_mut
+    against BlockListOps.tla."""
+    kinds = ["padding", "application", "comment", "seektable", "cuesheet"]
+    consts = ('cKinds == {%s}\ncMulti == {"padding", "application", "cuesheet"}\n'
+              'cOrders == {[k \\in cKinds |-> CASE k = "padding" -> 9 [] k = "comment" -> 1 [] k = "seektable" -> 0 [] OTHER -> 5],\n'
+              '            [k \\in cKinds |-> CASE k = "application" -> 0 [] k = "cuesheet" -> 0 [] OTHER -> 3]}\n') % ", ".join('"%s"' % k for k in kinds)
+    cfgc = "CONSTANTS\n Kinds <- cKinds\n Multi <- cMulti\n Orders <- cOrders\n MaxOps = %d\n" % (4 if t == "quick" else 5)
+    mp = write_text(os.path.join(wd, "MCBL.tla"), "---- MODULE MCBL ----\nEXTENDS BlockListOps\n" + consts + "====\n")
+    cp = write_text(os.path.join(wd, "MCBL.cfg"), cfgc + "SPECIFICATION Spec\nVIEW View\nINVARIANT Emit SingleKindsStaySingle InsertThenGet InsertKeepsOthersInPlace "
+                    "ReplaceKeepsPosition ExtractIsRemovePlusResult SortIsStablePermutation\nCHECK_DEADLOCK FALSE\n")
+    r = tlc(mp, cp, wd, workers=2, timeout=2400)
+    if r["errors"]:
+        sys.stderr.write(r["out"][-2000:])
+        raise ToolError("BlockListOps model check failed")
+    hs = gen_payloads(r["out"])
+    tp = os.path.join(wd, "trace_blocklist.ndjson")
+    run_drive("blocklist", {"out": tp, "kinds": kinds, "histories": hs}, wd, tag="blocklist")
+    tm = write_text(os.path.join(wd, "TRBL.tla"), "---- MODULE TRBL ----\nEXTENDS Trace_BlockList\n" + consts + "====\n")
+    tc = write_text(os.path.join(wd, "TRBL.cfg"), cfgc + "SPECIFICATION TSpec\nPOSTCONDITION Post\nCHECK_DEADLOCK FALSE\n")
+    tr = tlc_trace(tm, tc, tp, wd)
+    for ln in tr["rejects"][:5]:
+        log("GROWTH-SPEC-MISMATCH module=BlockListOps " + ln[:300])
     return {"states": r["distinct"], "histories": len(hs), "mismatches": len(tr["rejects"])}
